@@ -21,7 +21,7 @@ RULE = ('non-trivial = the witness is longer than the Manhattan distance to the 
 ASSUMPTIONS = [
     'dynamics and termination are those of the shipped configuration family of each reset function',
     'for dynamic_obstacles the witness search samples successors of the real stochastic step; no witness within the budget = inconclusive, never a violation',
-    'exhaustive BFS over the real step (deterministic environments) is capped at 60k states; hitting the cap = inconclusive',
+    'exhaustive BFS over the real step (deterministic environments) is capped at 60k states (grids over 150 cells: 4 states per cell, i.e. navigation only); hitting the cap = inconclusive',
 ]
 
 FAMILY = {
@@ -104,6 +104,10 @@ def model_plan(fn, d):
 def real_bfs(env, s0):
     """exhaustive breadth-first search over the real functional_step (deterministic dynamics).
     -> (plan or None, states explored, exhausted?)"""
+    # on long grids every expansion copies hundreds of cells: navigation (<= 4 states per cell) is still searched exhaustively, anything
+    # larger (key and door) is left to the small instances
+    cells = s0.grid.shape.height * s0.grid.shape.width
+    cap = BFS_CAP if cells <= 150 else 4 * cells + 100
     seen = {digest(objs.canon_state(s0))}
     q = deque([(s0, [])])
     while q:
@@ -118,7 +122,7 @@ def real_bfs(env, s0):
             if k in seen:
                 continue
             seen.add(k)
-            if len(seen) > BFS_CAP:
+            if len(seen) > cap:
                 return None, len(seen), False
             q.append((ns, path + [a.name]))
     return None, len(seen), True
